@@ -40,6 +40,39 @@ func (w *scriptWatcher) Stop() error {
 	return w.stopErr
 }
 
+// liveKV: a one-key bucket whose first Get is served at once and answered late (fake clock).
+type liveKV struct {
+	nats.KeyValue
+	mu           sync.Mutex
+	rev          uint64
+	val          []byte
+	gets         int
+	slowFirstGet time.Duration
+}
+
+func (k *liveKV) Get(key string) (nats.KeyValueEntry, error) {
+	k.mu.Lock()
+	k.gets++
+	n := k.gets
+	e := &stubEntry{bucket: "b", v: &Version{Key: key, Seq: k.rev, Op: opPut, Val: append([]byte(nil), k.val...)}}
+	k.mu.Unlock()
+	if n == 1 {
+		time.Sleep(k.slowFirstGet)
+	}
+	return e, nil
+}
+
+func (k *liveKV) Update(key string, v []byte, last uint64) (uint64, error) {
+	k.mu.Lock()
+	defer k.mu.Unlock()
+	if last != k.rev {
+		return 0, &nats.APIError{Code: 400, ErrorCode: nats.JSErrCodeStreamWrongLastSequence, Description: fmt.Sprintf("wrong last sequence: %d", k.rev)}
+	}
+	k.rev++
+	k.val = append([]byte(nil), v...)
+	return k.rev, nil
+}
+
 type scriptKV struct {
 	nats.KeyValue
 	rev   uint64
@@ -326,6 +359,41 @@ func RunC14(t *testing.T, seed uint64) *Result {
 				bad("kv-adapter-watch-passthrough", fmt.Sprintf("Watch returned (%v,%v) want err %v", w, err, sentinel))
 			} else if w != nil {
 				w.Stop()
+			}
+			// ---- reads from two application goroutines with an acknowledged write in between: a Get
+			// issued after the write was acknowledged returns it, whatever other read is still on its way
+			{
+				lk := &liveKV{rev: 1, val: []byte("v1"), slowFirstGet: r.Dur(50*time.Millisecond, 400*time.Millisecond)}
+				akv := leader.VerifNewKeyValue(lk)
+				type ans struct {
+					rev uint64
+					err error
+				}
+				first := make(chan ans, 1)
+				go func() {
+					e, err := akv.Get("kc")
+					a := ans{err: err}
+					if e != nil {
+						a.rev = e.Revision()
+					}
+					first <- a
+				}()
+				synctest.Wait() // the first read has been served (revision 1) and its answer is on its way
+				nrev, werr := akv.Update("kc", []byte("v2"), 1, time.Second)
+				e2, err2 := akv.Get("kc")
+				judged++
+				if werr != nil || nrev != 2 {
+					bad("kv-adapter-update-passthrough", fmt.Sprintf("concurrent scenario: Update returned (%d,%v)", nrev, werr))
+				} else if err2 != nil || e2 == nil || e2.Revision() != 2 || string(e2.Value()) != "v2" {
+					got := "nil entry"
+					if e2 != nil {
+						got = fmt.Sprintf("rev=%d val=%q", e2.Revision(), e2.Value())
+					}
+					bad("kv-adapter-get-stale-after-acknowledged-write", fmt.Sprintf("Update to revision 2 acknowledged, then Get returned %s err=%v while another Get (served at revision 1) was still on its way", got, err2))
+				}
+				if a := <-first; a.err != nil || a.rev != 1 {
+					bad("kv-adapter-get-passthrough", fmt.Sprintf("concurrent scenario: the first Get returned (rev=%d,%v), the bucket had served it revision 1", a.rev, a.err))
+				}
 			}
 			wantCalls := []string{fmt.Sprintf("create kx %q", val), fmt.Sprintf("update kx %q 41", val), "delete kx", "get kx"}
 			for i, c := range wantCalls {
